@@ -791,7 +791,13 @@ def check_C13(ctx):
                 if isopt:
                     if t == "":
                         continue
-                    argv = [rng.choice(["-x=" + t, "--val=" + t])]
+                    forms_ = [["-x=" + t], ["--val=" + t]]
+                    if kind != "bool" and not t.startswith("-"):
+                        # every documented spelling delivers the same bytes: separate and attached forms too
+                        forms_ += [["-x", t], ["--val", t]]
+                        if not t.startswith("="):
+                            forms_.append(["-x" + t])
+                    argv = rng.choice(forms_)
                     spec = "-x"
                 else:
                     argv = ["--", t]
@@ -938,6 +944,12 @@ def check_C16(ctx):
             # an argument may be backed by the environment too (struct form with EnvVar)
             if rng.random() < 0.35:
                 decls[-1]["env"] = "VA_" + n
+        # an option may be declared with an empty or blank name: it has no names and can never be given, but it is a declared
+        # option, and the synthesised spec starts with [OPTIONS] because of it (sometimes it is the only option)
+        if rng.random() < 0.12:
+            if rng.random() < 0.5:
+                decls = [d for d in decls if d["t"] != "opt"]
+            decls.append(gen.mkopt("bool", rng.choice(["", " ", "  "]), **{"def": ["false"]}))
         rng.shuffle(decls)
         opts = [d for d in decls if d["t"] == "opt"]
         args = [d for d in decls if d["t"] == "arg"]
